@@ -11,6 +11,7 @@ ASSUME = [
     "changed members, surplus and missing elements); destinations start zeroed or pre-populated",
     "oracle: encoding/json decoding the same document into an identically built destination (error iff error; reflect.DeepEqual on success)",
     "a divergence is reduced by shrinking the document; type, initial state, option and minimal document shape name the finding",
+    base.FR_ASSUME,
 ]
 
 
@@ -18,6 +19,10 @@ def describe(sig, st):
     p = sig.split("|")
     if p[0] == "crash":
         return "the process dies (%s) while decoding" % p[1]
+    if p[0] == "fields":
+        return "decoding into a struct follows other field rules than Go's (%s) for programs with %s" % (p[2].replace("-", " "), p[3] if len(p) > 3 else "?")
+    if p[0] == "ORACLE":
+        return "specification and encoding/json disagree: " + sig
     return "decoding %s for type [%s], %s, %s, minimal document shape %s" % (
         {"different-value": "stores a different value than encoding/json", "error-where-std-succeeds": "returns an error where encoding/json succeeds",
          "success-where-std-fails": "succeeds where encoding/json returns an error"}.get(p[1], p[1]), p[2], p[3], p[4], "|".join(p[5:]))
@@ -30,19 +35,25 @@ def run(tier, scratch, record=False):
     params = dict(types=tp, rand_modes=1 if tier == "quick" else 3, max_mutations=60 if tier == "quick" else 400)
     job = dict(prop=PROP, tier=tier, seed=vlib.seed(), params=params)
     out = vlib.run_workers(scratch, binary, RUNNER, job, case_timeout=60, total_timeout=3300 if tier == "thorough" else 900)
+    fres, nfr = base.field_rules(scratch, tier, binary, "decode", out)
     prec = dict(params)
     prec["types"] = "<emitted by TLC at run time>"
     cov = dict(
         rule="%d destination type constructions emitted by TLC; per type: encoding/json's documents for %d value modes (each into a zeroed "
              "and two pre-populated destinations, with UseNumber / DisallowUnknownFields / Decoder) and up to %d single-node mutations per "
-             "document; non-trivial = distinct types" % (ntypes, 4 + params["rand_modes"], params["max_mutations"]),
-        exhaustive=True, traces_validated_against_impl=ntypes)
+             "document; plus %d field-rule programs emitted by TLC from FieldRules.tla (the reference document decoded into a zero value); "
+             "non-trivial = distinct types" % (ntypes, 4 + params["rand_modes"], params["max_mutations"], nfr),
+        exhaustive=True, traces_validated_against_impl=ntypes + nfr)
     f = vlib.Findings(PROP)
     return vlib.conclude(PROP, tier, "exploration", t0, out, f, RUNNER, prec, cov, ASSUME, record=record,
-                         tlc_results=[tres], describe=describe)
+                         tlc_results=[tres, fres], describe=describe)
 
 
 def replay(scratch, rp):
+    if "types" in (rp.get("case") or {}) and "members" in rp["case"]:
+        binary, job = vlib.generic_replay(scratch, rp, "fr")
+        job["params"] = dict(cases="/dev/null")
+        return vlib.finish_replay(PROP, binary, "fr", job, scratch)
     binary, job = vlib.generic_replay(scratch, rp, RUNNER)
     job["params"] = dict(types="/dev/null", rand_modes=0, max_mutations=0)
     return vlib.finish_replay(PROP, binary, RUNNER, job, scratch)
